@@ -1,3 +1,4 @@
+// c12: correspondence cases for property C12 (dates).
 package main
 
 import (
@@ -8,9 +9,14 @@ import (
 	"time"
 
 	"github.com/robertkrimen/otto"
+	. "ottoh/lib"
 )
 
-func init() { register("c12", runC12) }
+func main() {
+	env := FromFlags("c12")
+	runC12(env)
+	env.Finish()
+}
 
 const maxTime = 8640000000000000
 
@@ -40,7 +46,7 @@ func optZ(p string) string {
 		}
 		return "None"
 	}
-	return "(Some " + cz(int64(f)) + ")"
+	return "(Some " + Cz(int64(f)) + ")"
 }
 
 func (g *c12gen) timeValue() int64 {
@@ -49,14 +55,14 @@ func (g *c12gen) timeValue() int64 {
 	case 0: // uniform over the whole ES5 range
 		return r.Int63n(2*maxTime+1) - maxTime
 	case 1: // range ends
-		return pick(r, []int64{maxTime, -maxTime, maxTime - 1, -maxTime + 1, 0, -1, 1, 999, -999, 1000, -1000})
+		return Pick(r, []int64{maxTime, -maxTime, maxTime - 1, -maxTime + 1, 0, -1, 1, 999, -999, 1000, -1000})
 	case 2, 3: // around a year boundary
 		y := int64(r.Intn(6000) - 3000 + 1970)
 		if r.Intn(3) == 0 {
 			y = int64(r.Intn(540000) - 270000)
 		}
 		t := time.Date(int(y), 1, 1, 0, 0, 0, 0, time.UTC).UnixMilli()
-		return clampT(t + int64(r.Intn(5)-2)*pick(r, []int64{1, 1000, 86400000}) + int64(r.Intn(3)-1))
+		return clampT(t + int64(r.Intn(5)-2)*Pick(r, []int64{1, 1000, 86400000}) + int64(r.Intn(3)-1))
 	case 4, 5: // around a month / leap-day boundary
 		y := int64(r.Intn(1200) + 1300)
 		if r.Intn(2) == 0 {
@@ -67,7 +73,7 @@ func (g *c12gen) timeValue() int64 {
 			m = 3
 		}
 		t := time.Date(int(y), time.Month(m), 1, 0, 0, 0, 0, time.UTC).UnixMilli()
-		return clampT(t + int64(r.Intn(5)-2)*pick(r, []int64{1, 86400000}))
+		return clampT(t + int64(r.Intn(5)-2)*Pick(r, []int64{1, 86400000}))
 	case 6: // 400/100-year boundaries and negative years
 		y := int64(r.Intn(60)-30) * 100
 		t := time.Date(int(y), time.Month(r.Intn(3)+1), 28, 23, 59, 59, 999000000, time.UTC).UnixMilli()
@@ -93,7 +99,7 @@ type c12gen struct {
 }
 
 func (g *c12gen) js(src string) string {
-	o := runJS(g.vm, src)
+	o := RunJS(g.vm, src)
 	if o.Panic != nil {
 		return fmt.Sprintf("!panic %v", o.Panic)
 	}
@@ -115,10 +121,10 @@ func (g *c12gen) field() (string, string) { // (js text, coq option Z)
 		return "(-Infinity)", "None"
 	case 2, 3:
 		v := int64(r.Intn(2000001) - 1000000)
-		return jsnum(float64(v)), "(Some " + cz(v) + ")"
+		return JSNum(float64(v)), "(Some " + Cz(v) + ")"
 	default:
 		v := int64(r.Intn(141) - 40)
-		return jsnum(float64(v)), "(Some " + cz(v) + ")"
+		return JSNum(float64(v)), "(Some " + Cz(v) + ")"
 	}
 }
 
@@ -137,7 +143,7 @@ func (g *c12gen) year() (string, string) {
 	default:
 		v = int64(r.Intn(3000) + 100)
 	}
-	return jsnum(float64(v)), "(Some " + cz(v) + ")"
+	return JSNum(float64(v)), "(Some " + Cz(v) + ")"
 }
 
 func runC12(env *Env) {
@@ -154,22 +160,22 @@ func runC12(env *Env) {
 		switch {
 		case i < len(pinned):
 			t := pinned[i]
-			obs := g.js(fmt.Sprintf("var d = new Date(%s); d.getTime()", jsnum(float64(t))))
-			env.Add(fmt.Sprintf("CClip %s %s", cz(t), optZ(obs)), fmt.Sprintf("clip new Date(%d).getTime() -> %s", t, obs), "clip", true)
+			obs := g.js(fmt.Sprintf("var d = new Date(%s); d.getTime()", JSNum(float64(t))))
+			env.Add(fmt.Sprintf("CClip %s %s", Cz(t), optZ(obs)), fmt.Sprintf("clip new Date(%d).getTime() -> %s", t, obs), "clip", true)
 		case kind <= 2:
 			t := g.timeValue()
-			obs := g.js(fmt.Sprintf("var d = new Date(%s); %s", jsnum(float64(t)), getJS))
-			env.Add(fmt.Sprintf("CGet %s %s", cz(t), clist(optZList(obs))), fmt.Sprintf("get new Date(%d) -> %s", t, obs), "get", t < 0 || t > 4102444800000)
+			obs := g.js(fmt.Sprintf("var d = new Date(%s); %s", JSNum(float64(t)), getJS))
+			env.Add(fmt.Sprintf("CGet %s %s", Cz(t), Clist(optZList(obs))), fmt.Sprintf("get new Date(%d) -> %s", t, obs), "get", t < 0 || t > 4102444800000)
 		case kind == 3:
 			t := g.timeValue()
-			iso := g.js(fmt.Sprintf("var d = new Date(%s); d.toISOString()", jsnum(float64(t))))
-			back := g.js(fmt.Sprintf("Date.parse(%s)", jsstr(units(iso))))
-			json := g.js(fmt.Sprintf("new Date(%s).toJSON()", jsnum(float64(t))))
+			iso := g.js(fmt.Sprintf("var d = new Date(%s); d.toISOString()", JSNum(float64(t))))
+			back := g.js(fmt.Sprintf("Date.parse(%s)", JSStr(Units(iso))))
+			json := g.js(fmt.Sprintf("new Date(%s).toJSON()", JSNum(float64(t))))
 			same := "false"
 			if json == iso {
 				same = "true"
 			}
-			env.Add(fmt.Sprintf("CIso %s %s %s %s", cz(t), cstr(iso), optZ(back), same), fmt.Sprintf("iso new Date(%d).toISOString() -> %s ; Date.parse -> %s ; toJSON same=%s", t, iso, back, same), "iso", t < 0 || t > 4102444800000)
+			env.Add(fmt.Sprintf("CIso %s %s %s %s", Cz(t), Cstr(iso), optZ(back), same), fmt.Sprintf("iso new Date(%d).toISOString() -> %s ; Date.parse -> %s ; toJSON same=%s", t, iso, back, same), "iso", t < 0 || t > 4102444800000)
 		case kind <= 5:
 			n := r.Intn(6) + 2
 			js := make([]string, n)
@@ -192,14 +198,14 @@ func runC12(env *Env) {
 				tag = "1"
 			}
 			obs := g.js(which)
-			env.Add(fmt.Sprintf("CUtc %s %s %s", tag, clist(cq), optZ(obs)), fmt.Sprintf("utc %s -> %s", which, obs), "utc", nontriv)
+			env.Add(fmt.Sprintf("CUtc %s %s %s", tag, Clist(cq), optZ(obs)), fmt.Sprintf("utc %s -> %s", which, obs), "utc", nontriv)
 		case kind <= 8:
 			t := g.timeValue()
 			if r.Intn(3) > 0 {
 				t = clampT(t / 1000) // keep histories mostly inside the range so that they do not all clip
 			}
-			start := jsnum(float64(t))
-			cstart := "(Some " + cz(t) + ")"
+			start := JSNum(float64(t))
+			cstart := "(Some " + Cz(t) + ")"
 			if r.Intn(12) == 0 {
 				start, cstart = "NaN", "None"
 			}
@@ -218,22 +224,22 @@ func runC12(env *Env) {
 						js[a], cq[a] = g.year()
 					} else if id == 7 {
 						tv := g.timeValue()
-						js[a], cq[a] = jsnum(float64(tv)), "(Some "+cz(tv)+")"
+						js[a], cq[a] = JSNum(float64(tv)), "(Some "+Cz(tv)+")"
 					} else {
 						js[a], cq[a] = g.field()
 					}
 				}
 				fmt.Fprintf(&src, "out.push(d.%s(%s)); out.push(d.getTime());", s.name, strings.Join(js, ","))
-				ops[k] = fmt.Sprintf("(%d, %s)", id, clist(cq))
+				ops[k] = fmt.Sprintf("(%d, %s)", id, Clist(cq))
 			}
 			src.WriteString(`out.join(",")`)
 			obs := g.js(src.String())
-			env.Add(fmt.Sprintf("CSet %s %s %s", cstart, clist(ops), clist(optZList(obs))), fmt.Sprintf("set %s -> %s", src.String(), obs), "set", true)
+			env.Add(fmt.Sprintf("CSet %s %s %s", cstart, Clist(ops), Clist(optZList(obs))), fmt.Sprintf("set %s -> %s", src.String(), obs), "set", true)
 		default:
 			// an invalid date stays invalid under every accessor and formatter
-			how := pick(r, []string{"new Date(NaN)", "new Date(Infinity)", "new Date(2000, NaN)", "new Date('not a date')", "(function(){var d=new Date(0); d.setTime(NaN); return d})()", "(function(){var d=new Date(0); d.setUTCHours(NaN); return d})()", "(function(){var d=new Date(0); d.setUTCMonth(1, Infinity); return d})()"})
+			how := Pick(r, []string{"new Date(NaN)", "new Date(Infinity)", "new Date(2000, NaN)", "new Date('not a date')", "(function(){var d=new Date(0); d.setTime(NaN); return d})()", "(function(){var d=new Date(0); d.setUTCHours(NaN); return d})()", "(function(){var d=new Date(0); d.setUTCMonth(1, Infinity); return d})()"})
 			obs := g.js(fmt.Sprintf("var d = %s; [d.getTime(), d.getUTCFullYear(), d.getUTCMonth(), d.getUTCDate(), d.getUTCDay(), d.getUTCHours(), d.getUTCMinutes(), d.getUTCSeconds(), d.getUTCMilliseconds(), d.valueOf(), d.getFullYear(), d.getMonth(), d.getDate(), d.getDay(), d.getHours(), d.getMinutes(), d.getSeconds(), d.getMilliseconds(), d.getTimezoneOffset()].every(function(x){return x!==x}) && d.toString()==='Invalid Date' && d.toUTCString()==='Invalid Date' && d.toDateString()==='Invalid Date' && d.toTimeString()==='Invalid Date' && d.toJSON()===null && String(d)==='Invalid Date' && isNaN(d.setUTCSeconds(1)) && isNaN(d.setUTCDate(1)) && isNaN(d.getTime())", how))
-			env.Add(fmt.Sprintf("CInvalid %s", cbool(obs == "true")), fmt.Sprintf("invalid %s -> %s", how, obs), "invalid", true)
+			env.Add(fmt.Sprintf("CInvalid %s", Cbool(obs == "true")), fmt.Sprintf("invalid %s -> %s", how, obs), "invalid", true)
 		}
 	}
 }
